@@ -24,6 +24,7 @@ import (
 	"flag"
 	"fmt"
 	"os"
+	"strconv"
 	"strings"
 	"sync"
 	"sync/atomic"
@@ -754,6 +755,9 @@ func allLeaves(vs []string) bool {
 
 var evaluators = []string{"get", "first", "has", "locate", "walk", "nodes", "firstnode"}
 
+// machineOps: the evaluators that also have a machine model of their own (driver op <ev>m, JPath/Machines.lean)
+var machineOps = map[string]bool{"first": true, "has": true, "locate": true, "walk": true}
+
 // modelOut parses a driver answer of an evaluator into the shape of an implementation outcome.
 func modelOut(ev, ans string) out {
 	switch ev {
@@ -869,10 +873,12 @@ func (w *worker) runC11(c *Case, pw, dw string) error {
 		return nil
 	}
 	type runT struct {
-		ev  string
-		r   Rep
-		o   out
-		ord bool
+		ev   string
+		r    Rep
+		o    out
+		ord  bool
+		mach bool // the model side is the evaluator's own machine (ops firstm, hasm, …), checked for the tie only
+		skip bool // a budget run: an answer "skip" or a panic on either side is not compared
 	}
 	var runs []runT
 	var qs []query
@@ -918,9 +924,23 @@ func (w *worker) runC11(c *Case, pw, dw string) error {
 			if ev == "get" && r.typed() {
 				mop = "gets"
 			}
-			runs = append(runs, runT{ev, r, o, ord})
+			runs = append(runs, runT{ev, r, o, ord, false, false})
 			qs = append(qs, query{mop, r.String(), pinnedFlags})
 			rep.Count("runs."+ev+"."+r.String(), 1)
+			if machineOps[ev] {
+				// the same outcome of the implementation against the evaluator's own machine model
+				runs = append(runs, runT{ev, r, o, ord, true, false})
+				qs = append(qs, query{ev + "m", r.String(), pinnedFlags})
+				rep.Count("runs."+ev+"m."+r.String(), 1)
+			}
+			if ev == "locate" && ord && !r.typed() {
+				// Locate with a budget (max = 1..3) against the recursive model: the order of the returned slice
+				// matters, so only where it is defined (no iteration over a wide map, no struct fields)
+				k := 1 + (len(pw)+len(dw)+len(runs))%3
+				runs = append(runs, runT{ev, r, goLocateMax(x, data, c.t, k), ord, true, true})
+				qs = append(qs, query{"locatemax" + strconv.Itoa(k), r.String(), pinnedFlags})
+				rep.Count("runs.locatemax."+r.String(), 1)
+			}
 		}
 	}
 	ans, err := w.ask(c, pw, dw, qs)
@@ -934,11 +954,24 @@ func (w *worker) runC11(c *Case, pw, dw string) error {
 	sib := pinned('s')
 	unordG := sib && !ordSimple && c.p.descentAfterFrag() // Go Get itself depends on the map order here (descentSiblings)
 	for i, ru := range runs {
-		m := modelOut(qs[i].op, ans[i])
+		m := modelOut(ru.ev, ans[i])
+		if qs[i].op == "gets" {
+			m = modelOut("gets", ans[i])
+		}
 		desc := map[string]any{"rep": ru.r.String(), "evaluator": ru.ev, "impl": ru.o.String(), "impl_found": ru.o.found, "impl_val": ru.o.val,
 			"model": ans[i], "get_simple": G.String()}
 		class := ru.ev + ":" + ru.r.String()
 		tie := tied(ru.ev, ru.o, m, ru.ord && !(ru.ev == "locate" && ru.r.typed())) // Locate visits struct fields back to front
+		if ru.mach {
+			if ru.skip && (ans[i] == "skip" || ru.o.panic != "") {
+				rep.Count("skipped.locatemax_fault", 1)
+				continue
+			}
+			if !tie && !c.p.hasHuge() {
+				finding("disagreement", "machine-"+ru.ev+":"+ru.r.String(), "the evaluator and its machine model ("+qs[i].op+") differ", c, desc)
+			}
+			continue
+		}
 		ok, why := agrees(ru.ev, ru.o, G.vals, ordSimple)
 		if (!tie || !ok) && (unordG || sib && !ru.ord && c.p.descentAfterFrag()) && ru.o.panic == "" && ru.o.bad == "" {
 			// results that depend on Go's map order through the descentSiblings deviation: compare with the
